@@ -397,6 +397,54 @@ fn extreme_dimensions(rep: &mut Report) {
     }
 }
 
+/// Pages of DIFFERENT sizes built at the same instant on several threads (small, 64 KiB and more, 1 MiB), again and again:
+/// every new page is header + blank pixel data + FF padding for ITS size, whatever the other threads are building.
+fn concurrent_new_pages(rounds: usize, rep: &mut Report) {
+    use std::sync::{Arc, Barrier};
+    let sizes: [(u32, u32); 8] = [(4096, 128), (8192, 64), (4000, 136), (65_536, 8), (90, 7), (4097, 127), (65_536, 128), (1, 1)];
+    let n = sizes.len();
+    let barrier = Arc::new(Barrier::new(n));
+    let handles: Vec<_> = (0..n)
+        .map(|t| {
+            let barrier = barrier.clone();
+            std::thread::spawn(move || -> Result<usize, String> {
+                let mut built = 0usize;
+                let mut first_bad: Option<String> = None;
+                // thread t alternates between its own size and its neighbour's, so that equal and different sizes meet
+                let mine = [sizes[t], sizes[(t + 1) % n]];
+                let mut wants = [RefPage::new(0, mine[0].0, mine[0].1).image(), RefPage::new(0, mine[1].0, mine[1].1).image()];
+                for r in 0..rounds {
+                    let k = (r % 3 == 2) as usize;
+                    let (w, h) = mine[k];
+                    wants[k][0] = (r % 251) as u8;
+                    if r % 8 == 0 {
+                        barrier.wait(); // (every thread runs every round, also after a failure, so nobody waits alone)
+                    }
+                    let p = Page::new(PageId((r % 251) as u8), w, h);
+                    if p.width() != w || p.height() != h || p.as_bytes() != &wants[k][..] {
+                        let at = p.as_bytes().iter().zip(&wants[k]).position(|(a, b)| a != b);
+                        first_bad.get_or_insert(format!("thread {} round {}: Page::new({}x{}) has {} bytes (expected {}), reports {}x{}, first differing byte at {:?}", t, r, w, h, p.as_bytes().len(), wants[k].len(), p.width(), p.height(), at));
+                    } else {
+                        built += 1;
+                    }
+                }
+                match first_bad {
+                    Some(e) => Err(e),
+                    None => Ok(built),
+                }
+            })
+        })
+        .collect();
+    for (t, h) in handles.into_iter().enumerate() {
+        rep.case(Some(0xC07C_0000 + t as u64));
+        match h.join() {
+            Ok(Ok(k)) => rep.add("pages_built_while_other_threads_built_other_sizes", k as u64),
+            Ok(Err(e)) => rep.violation(MON, "new_page_wrong_when_built_concurrently", &format!("concurrent-new|{}", t), e.clone(), J::obj(vec![("workload", J::s("concurrent Page::new")), ("observed", J::s(e))])),
+            Err(_) => rep.violation(MON, "panic", &format!("concurrent-new|{}", t), format!("thread {} building pages panicked", t), J::obj(vec![("workload", J::s("concurrent Page::new"))])),
+        }
+    }
+}
+
 pub fn run(ctx: &Ctx) -> Outcome {
     let (bw, bh) = if ctx.quick() { (100u32, 48u32) } else { (256, 136) };
     let mut sizes: Vec<(u32, u32, bool)> = vec![]; // (w, h, sampled pixels only)
@@ -473,10 +521,12 @@ pub fn run(ctx: &Ctx) -> Outcome {
         // the same calls from a thread-local destructor while a thread exits (see exitprobe.rs)
         let mut at_exit = Report::new();
         crate::exitprobe::check("page", MON, &mut at_exit);
+        concurrent_new_pages(if ctx.quick() { 96 } else { 2000 }, &mut at_exit);
         crate::exitprobe::check_migration("page", MON, &mut at_exit);
         report.merge(at_exit);
     }
     let floors = vec![
+        floor("new pages of 8 different sizes (1 byte .. 1 MiB) built at the same instant on 8 threads, every one checked", report.get("pages_built_while_other_threads_built_other_sizes") >= 8 * 96, report.get("pages_built_while_other_threads_built_other_sizes")),
         floor("every size of the box checked", report.get("box_sizes_done") == box_n as u64, report.get("box_sizes_done")),
         floor("11 real sizes and the tall / wide sizes checked pixel by pixel", report.get("real_sizes_done") == 11 + n_tall as u64, report.get("real_sizes_done")),
         floor("every large size checked", report.get("large_sizes_done") == n_large, report.get("large_sizes_done")),
